@@ -1,4 +1,4 @@
-import IncrVerif.Proofs.NecRel5
+import IncrVerif.Proofs.NecRel6
 /-!
 # C05Release — the necessity invariant `NecWF` (C05/C11) in RELEASE mode (`cfg.debug = false`)
 
@@ -26,7 +26,10 @@ build would have accepted.
   API, node creation (`elabInstr`, `elabTemplate`, `memoCall`), `writeVar`/`didSetVarWhileNotStabilising`, the
   observer API, `runEffects`, `perKeyDriver`, `recomputeOne`, `recompute`, `drainHeap`, `addNewObservers`,
   `unlinkDisallowedObservers`, `runAll`, `stabiliseEnd`, `stabilise`, `setMaxHeightAllowed`
-  (`Proofs/NecRel2–4.lean`; restated below for the functions named in the task).
+  (`Proofs/NecRel2–4.lean`; restated below for the functions named in the task), and for the driver's step
+  function `stepAction env a tokens` of `Engine/Run.lean`, i.e. for EVERY action of a history
+  (`stepAction_sim`, `stepAction_release`: the release step returns the same API result text and token table as
+  the debug step, in the erased state, whenever the debug step returns normally).
 * `release_transfer`: for any `x` with `Sim x` and debug-mode preservation of `NecWF`: from a release state `s`
   (`Release s`, `NecWF s`), if the debug run from a twin `debugTwin s cr` returns `.ok a` in `sd'`, then the
   release run from `s` returns `.ok a` in `erase sd'`, and `NecWF (erase sd') ∧ Release (erase sd')`.
@@ -79,6 +82,18 @@ theorem expertAddDependency_sim (env : Env) (fuel n child : Nat) (cb : Bool) :
     Sim (expertAddDependency env fuel n child cb) := sim_expertAddDependency env fuel n child cb
 theorem expertRemoveDependency_sim (fuel n dep : Nat) : Sim (expertRemoveDependency fuel n dep) :=
   sim_expertRemoveDependency fuel n dep
+
+/-- every action of the driver (`Engine/Run.lean`) -/
+theorem stepAction_sim (env : Env) (a : Action) (tokens : Array Nat) : Sim (stepAction env a tokens) :=
+  sim_stepAction env a tokens
+
+/-- … in release form: from a release state, if the debug twin's step returns normally, the release step
+returns the same result in the erased state -/
+theorem stepAction_release (env : Env) (a : Action) (tokens : Array Nat) (s : State) (hrel : Release s)
+    (cr : Option Nat) (r : String × Array Nat) (sd' : State)
+    (hdbg : (stepAction env a tokens).run.run (debugTwin s cr) = (.ok r, sd')) :
+    (stepAction env a tokens).run.run s = (.ok r, erase sd') ∧ Release (erase sd') :=
+  NecRel.stepAction_release env a tokens s hrel cr r sd' hdbg
 
 /-! ## 2: the transfer -/
 
